@@ -11,7 +11,7 @@ import (
 
 func init() {
 	register(&Rule{
-		ID: "NIL-SENTINEL", Props: []string{"C04"}, Floor: 1,
+		ID: "NIL-SENTINEL", Props: []string{"C04", "C18"}, Floor: 1,
 		Doc: "no index key (index.Key value, or []byte key field of an index iterator/entry) is compared with nil to decide presence: the empty key is a legal key and index.String(\"\") is a nil slice",
 		Run: ruleNilSentinel,
 	})
